@@ -9,6 +9,7 @@ import (
 
 	"pmc/internal/comp"
 	"pmc/internal/harness"
+	"pmc/internal/machine"
 )
 
 // C08 — mapscripts emit complete, ordered, terminated tables whose entries resolve.
@@ -273,7 +274,15 @@ func c08Eval(r *harness.Run, entries []c08Entry, scope string, opt bool, sw map[
 			continue
 		}
 		if blk != want {
-			fail("C08:inline-differs", fmt.Sprintf("inline script %s emitted as %q; the same body as a script statement gives %q", in.name, blk, want))
+			// Not byte-identical: the property only asks for the same behaviour, so fall back to the
+			// product exploration of the two blocks (same entry label, all game states).
+			ro := machine.ReadOpts{Owners: []string{in.name}}
+			pa, pb := machine.ReadAsm(want+"\n", ro), machine.ReadAsm(blk+"\n", ro)
+			_, v := machine.Explore(pa, pb, in.name, in.name, machine.Lazy)
+			r.Add("inline_blocks_compared_by_behaviour", 1)
+			if v != nil {
+				fail("C08:inline-differs", fmt.Sprintf("inline script %s emitted as %q; the same body as a script statement gives %q and behaves differently: %s", in.name, blk, want, v))
+			}
 		}
 	}
 	// every label of the output is accounted for, table/inline labels exactly once
